@@ -750,6 +750,10 @@ impl dust_dds::dds_async::data_writer_listener::DataWriterListener<KeyedData> fo
         self.0.lock().unwrap().push("writer:publication_matched".into());
         core::future::ready(())
     }
+    fn on_offered_deadline_missed(&mut self, _w: DataWriterAsync<KeyedData>, _s: dust_dds::infrastructure::status::OfferedDeadlineMissedStatus) -> impl std::future::Future<Output = ()> + Send {
+        self.0.lock().unwrap().push("writer:offered_deadline_missed".into());
+        core::future::ready(())
+    }
 }
 struct LvP(WLog);
 impl dust_dds::dds_async::publisher_listener::PublisherListener for LvP {
@@ -759,6 +763,10 @@ impl dust_dds::dds_async::publisher_listener::PublisherListener for LvP {
     }
     fn on_publication_matched(&mut self, _w: DataWriterAsync<()>, _s: dust_dds::infrastructure::status::PublicationMatchedStatus) -> impl std::future::Future<Output = ()> + Send {
         self.0.lock().unwrap().push("publisher:publication_matched".into());
+        core::future::ready(())
+    }
+    fn on_offered_deadline_missed(&mut self, _w: DataWriterAsync<()>, _s: dust_dds::infrastructure::status::OfferedDeadlineMissedStatus) -> impl std::future::Future<Output = ()> + Send {
+        self.0.lock().unwrap().push("publisher:offered_deadline_missed".into());
         core::future::ready(())
     }
 }
@@ -772,39 +780,134 @@ impl dust_dds::dds_async::domain_participant_listener::DomainParticipantListener
         self.0.lock().unwrap().push("participant:publication_matched".into());
         core::future::ready(())
     }
+    fn on_offered_deadline_missed(&mut self, _w: DataWriterAsync<()>, _s: dust_dds::infrastructure::status::OfferedDeadlineMissedStatus) -> impl std::future::Future<Output = ()> + Send {
+        self.0.lock().unwrap().push("participant:offered_deadline_missed".into());
+        core::future::ready(())
+    }
 }
 /// all 3 x 4 x 4 mask configurations of (writer, publisher, participant) x {no listener, {}, {status}, {other}} ... reduced to
 /// the mask sets {none, OfferedIncompatibleQos, PublicationMatched, both} per level, every level with a listener
 async fn c33_writer_chain(ctx: Ctx) {
-    let masks: [&[StatusKind]; 4] = [&[], &[StatusKind::OfferedIncompatibleQos], &[StatusKind::PublicationMatched], &[StatusKind::OfferedIncompatibleQos, StatusKind::PublicationMatched]];
+    // mask bit 1 = OfferedIncompatibleQos, 2 = PublicationMatched, 4 = OfferedDeadlineMissed: 8 masks per level, 512 configurations
+    let all = [StatusKind::OfferedIncompatibleQos, StatusKind::PublicationMatched, StatusKind::OfferedDeadlineMissed];
+    let masks: Vec<Vec<StatusKind>> = (0..8usize).map(|m| (0..3).filter(|b| m & (1 << b) != 0).map(|b| all[b]).collect()).collect();
     let cfg = ctx.choose(b'O', 64);
-    let (mw, mp, md) = (cfg % 4, (cfg / 4) % 4, cfg / 16);
+    let cfg2 = ctx.choose(b'O', 8);
+    let (mw, mp, md) = (cfg % 4 + 4 * (cfg2 & 1), (cfg / 4) % 4 + 4 * ((cfg2 >> 1) & 1), cfg / 16 + 4 * (cfg2 >> 2));
     let f = ctx.factory("", None);
     let log: WLog = Arc::new(Mutex::new(vec![]));
-    let p1 = f.create_participant(0, QosKind::Default, Some(LvD(log.clone())), masks[md]).await.expect("p1");
+    let p1 = f.create_participant(0, QosKind::Default, Some(LvD(log.clone())), &masks[md]).await.expect("p1");
     let t1 = p1.create_topic::<KeyedData>("T", "T", QosKind::Default, NO_LISTENER, NO_STATUS).await.expect("t1");
-    let publ = p1.create_publisher(QosKind::Default, Some(LvP(log.clone())), masks[mp]).await.expect("publisher");
+    let publ = p1.create_publisher(QosKind::Default, Some(LvP(log.clone())), &masks[mp]).await.expect("publisher");
     let mut wq = reliable_w(HistoryQosPolicyKind::KeepAll, Some(100));
     wq.reliability.kind = ReliabilityQosPolicyKind::BestEffort;
-    let w = publ.create_datawriter::<KeyedData>(&t1, QosKind::Specific(wq), Some(LvW(log.clone())), masks[mw]).await.expect("writer");
+    wq.deadline = dust_dds::infrastructure::qos_policy::DeadlineQosPolicy { period: DurationKind::Finite(Duration::new(0, 400_000_000)) };
+    let w = publ.create_datawriter::<KeyedData>(&t1, QosKind::Specific(wq), Some(LvW(log.clone())), &masks[mw]).await.expect("writer");
+    // an instance whose deadline is then missed (several times) while the scenario waits
+    w.write(sample(1, 0, 8), None).await.expect("write");
     // a compatible (best-effort) and an incompatible (reliable) remote reader
     let n2 = node::<KeyedData>(&f, 0, "T").await;
     let _rc = n2.subscriber.create_datareader::<KeyedData>(&n2.topic, QosKind::Specific(best_effort_r(HistoryQosPolicyKind::KeepAll)), NO_LISTENER, NO_STATUS).await.expect("rc");
     let _ri = n2.subscriber.create_datareader::<KeyedData>(&n2.topic, QosKind::Specific(reliable_r(HistoryQosPolicyKind::KeepAll)), NO_LISTENER, NO_STATUS).await.expect("ri");
     ctx.sleep_ms(1500).await;
     let l = log.lock().unwrap().clone();
-    for (status, bit) in [("offered_incompatible_qos", 1usize), ("publication_matched", 2)] {
+    for (status, bit) in [("offered_incompatible_qos", 1usize), ("publication_matched", 2), ("offered_deadline_missed", 4)] {
         let enabled = |m: usize| m & bit != 0;
         let expected = if enabled(mw) { Some("writer") } else if enabled(mp) { Some("publisher") } else if enabled(md) { Some("participant") } else { None };
         let got: Vec<&String> = l.iter().filter(|x| x.ends_with(status)).collect();
-        let levels: Vec<&str> = got.iter().map(|x| x.split(':').next().unwrap()).collect();
+        let mut levels: Vec<&str> = got.iter().map(|x| x.split(':').next().unwrap()).collect();
+        if bit == 4 {
+            // several periods are missed while the scenario waits: one call per missed period, all at the same level
+            levels.dedup();
+        }
         match expected {
             None if !levels.is_empty() => ctx.violation(format!("writer-side/{status}/unexpected-callback"), format!("masks writer={mw} publisher={mp} participant={md}: no level enables the status, called {levels:?}")),
-            Some(e) if levels != vec![e] => ctx.violation(format!("writer-side/{status}/expected={e}/got={}", if levels.is_empty() { "none".to_string() } else { levels.join("+") }), format!("masks (bit 1 = OfferedIncompatibleQos, bit 2 = PublicationMatched) writer={mw} publisher={mp} participant={md}: exactly one call at the most specific enabled level expected, got {levels:?}")),
+            Some(e) if levels != vec![e] => ctx.violation(format!("writer-side/{status}/expected={e}/got={}", if levels.is_empty() { "none".to_string() } else { levels.join("+") }), format!("masks (bit 1 = OfferedIncompatibleQos, bit 2 = PublicationMatched, bit 4 = OfferedDeadlineMissed) writer={mw} publisher={mp} participant={md}: exactly one call at the most specific enabled level expected, got {levels:?}")),
             _ => {}
         }
     }
     let _ = w;
+}
+
+// ---- C33 (topic) -------------------------------------------------------------------------------------------------------
+struct LvT(WLog);
+impl dust_dds::dds_async::topic_listener::TopicListener for LvT {
+    fn on_inconsistent_topic(&mut self, _t: TopicAsync, _s: dust_dds::infrastructure::status::InconsistentTopicStatus) -> impl std::future::Future<Output = ()> + Send {
+        self.0.lock().unwrap().push("topic:inconsistent_topic".into());
+        core::future::ready(())
+    }
+}
+struct LvDT(WLog);
+impl dust_dds::dds_async::domain_participant_listener::DomainParticipantListener for LvDT {
+    fn on_inconsistent_topic(&mut self, _t: TopicAsync, _s: dust_dds::infrastructure::status::InconsistentTopicStatus) -> impl std::future::Future<Output = ()> + Send {
+        self.0.lock().unwrap().push("participant:inconsistent_topic".into());
+        core::future::ready(())
+    }
+}
+/// a remote endpoint on the same topic name with another type: the InconsistentTopic status of the local topic goes to
+/// the topic's listener if its mask enables it, else to the participant's; listener presence x masks at both levels, for
+/// a local writer and for a local reader
+async fn c33_inconsistent_topic(ctx: Ctx, local_is_writer: bool) {
+    let presence = ctx.choose(b'O', 4);
+    let masks = ctx.choose(b'O', 4);
+    let f = ctx.factory("", None);
+    let log: WLog = Arc::new(Mutex::new(vec![]));
+    let m = |lvl: usize| -> Vec<StatusKind> { if masks & (1 << lvl) != 0 { vec![StatusKind::InconsistentTopic] } else { vec![] } };
+    let p1 = if presence & 2 != 0 {
+        f.create_participant(0, QosKind::Default, Some(LvDT(log.clone())), &m(1)).await.expect("p1")
+    } else {
+        f.create_participant(0, QosKind::Default, NO_LISTENER, NO_STATUS).await.expect("p1")
+    };
+    let t1 = if presence & 1 != 0 {
+        p1.create_topic::<KeyedData>("T", "T", QosKind::Default, Some(LvT(log.clone())), &m(0)).await.expect("t1")
+    } else {
+        p1.create_topic::<KeyedData>("T", "T", QosKind::Default, NO_LISTENER, NO_STATUS).await.expect("t1")
+    };
+    let publ = p1.create_publisher(QosKind::Default, NO_LISTENER, NO_STATUS).await.expect("publisher");
+    let subs = p1.create_subscriber(QosKind::Default, NO_LISTENER, NO_STATUS).await.expect("subscriber");
+    let mut keep: (Option<DataWriterAsync<KeyedData>>, Option<DataReaderAsync<KeyedData>>) = (None, None);
+    if local_is_writer {
+        keep.0 = Some(publ.create_datawriter::<KeyedData>(&t1, QosKind::Specific(reliable_w(HistoryQosPolicyKind::KeepAll, Some(100))), NO_LISTENER, NO_STATUS).await.expect("w"));
+    } else {
+        keep.1 = Some(subs.create_datareader::<KeyedData>(&t1, QosKind::Specific(reliable_r(HistoryQosPolicyKind::KeepAll)), NO_LISTENER, NO_STATUS).await.expect("r"));
+    }
+    // the remote side: topic "T" with type "Other" (a structurally different type)
+    let p2 = f.create_participant(0, QosKind::Default, NO_LISTENER, NO_STATUS).await.expect("p2");
+    let t2 = p2.create_topic::<FilterData>("T", "Other", QosKind::Default, NO_LISTENER, NO_STATUS).await.expect("t2");
+    let publ2 = p2.create_publisher(QosKind::Default, NO_LISTENER, NO_STATUS).await.expect("publisher2");
+    let subs2 = p2.create_subscriber(QosKind::Default, NO_LISTENER, NO_STATUS).await.expect("subscriber2");
+    let mut keep2: (Option<DataWriterAsync<FilterData>>, Option<DataReaderAsync<FilterData>>) = (None, None);
+    if local_is_writer {
+        keep2.1 = Some(subs2.create_datareader::<FilterData>(&t2, QosKind::Specific(reliable_r(HistoryQosPolicyKind::KeepAll)), NO_LISTENER, NO_STATUS).await.expect("r2"));
+    } else {
+        keep2.0 = Some(publ2.create_datawriter::<FilterData>(&t2, QosKind::Specific(reliable_w(HistoryQosPolicyKind::KeepAll, Some(100))), NO_LISTENER, NO_STATUS).await.expect("w2"));
+    }
+    ctx.sleep_ms(1500).await;
+    let total = t1.get_inconsistent_topic_status().await.map(|s| s.total_count).unwrap_or(-1);
+    let l = log.lock().unwrap().clone();
+    let has = |lvl: usize| presence & (1 << lvl) != 0 && masks & (1 << lvl) != 0;
+    let expected = if has(0) { Some("topic") } else if has(1) { Some("participant") } else { None };
+    let levels: Vec<&str> = l.iter().map(|x| x.split(':').next().unwrap()).collect();
+    ctx.obs(format!("presence={presence:02b} masks={masks:02b} total_count={total} callbacks={levels:?} expected={expected:?}"));
+    if total < 1 {
+        // the status itself was not raised: nothing to dispatch (whether this pair of types is inconsistent is not C33's subject)
+        ctx.count("inconsistent_topic_not_raised", 1);
+        if !levels.is_empty() {
+            ctx.violation("inconsistent-topic/callback-without-status-change", format!("total_count={total}, callbacks {levels:?}"));
+        }
+        return;
+    }
+    ctx.count("inconsistent_topic_raised", 1);
+    let side = if local_is_writer { "writer" } else { "reader" };
+    match expected {
+        None if !levels.is_empty() => ctx.violation(format!("inconsistent-topic/{side}/unexpected-callback"), format!("presence={presence:02b} masks={masks:02b}: no enabled listener, called {levels:?}")),
+        Some(e) if levels.len() != total as usize || levels.iter().any(|x| *x != e) => ctx.violation(
+            format!("inconsistent-topic/{side}/expected={e}/got={}", if levels.is_empty() { "none".to_string() } else { let mut d = levels.clone(); d.dedup(); d.join("+") }),
+            format!("presence={presence:02b} masks={masks:02b} (bit 1 = topic, bit 2 = participant): total_count={total}, one call per change at the most specific enabled level expected, got {levels:?}"),
+        ),
+        _ => {}
+    }
+    let _ = (keep, keep2);
 }
 
 pub fn extra(id: &str) -> Vec<Scenario> {
@@ -840,6 +943,9 @@ pub fn extra(id: &str) -> Vec<Scenario> {
         "C32" => add("enable".into(), Scenario::new("C32.audit[enabled-after-status-change]".to_string(), 0, c32_enable_after_data)),
         "C33" => {
             add("wchain".into(), Scenario::new("C33.audit[writer-side-chain]".to_string(), 99, c33_writer_chain));
+            for lw in [true, false] {
+                add("topic".into(), Scenario::new(format!("C33.audit[inconsistent-topic,local_is_writer={lw}]"), 99, move |ctx| c33_inconsistent_topic(ctx, lw)));
+            }
             for rs in [true, false] {
                 add("unmatch".into(), Scenario::new(format!("C33.audit[unmatch,reader_side={rs}]"), 0, move |ctx| c33_unmatch(ctx, rs)));
             }
